@@ -9,7 +9,7 @@ v1: {base gid: paint}; a paint is a dict in colorLib's own input form with integ
 """
 
 V0_SHAPES = ["single_layer", "few", "many_layers", "shared_layers", "foreground", "no_layers", "all_without_layers", "many_bases"]
-V1_SHAPES = ["solid", "gradients", "transforms", "around_center", "rotate_skew", "composite", "colrglyph", "deep", "reuse",
+V1_SHAPES = ["solid", "gradients", "transforms", "around_center", "rotate_skew", "composite", "colrglyph", "deep", "reuse", "reuse_many",
              "many_layers_256", "mixed_v0_v1", "clipboxes"]
 
 F14 = 16384.0
@@ -147,6 +147,21 @@ def gen_v1(rnd, shape, n, npal):
     """-> (glyphs {base gid: paint | [(gid, palette)] for v0-style bases}, clipBoxes {gid: (xMin, yMin, xMax, yMax)})"""
     out, clips = {}, {}
     nb = rnd.randint(2, 6)
+    if shape == "reuse_many":
+        # emoji-like: hundreds of colour glyphs drawing their layers from a small pool of layer paints, so that
+        # runs of layers recur (layer reuse) between many glyphs with different layer lists
+        nb = rnd.randint(150, min(320, n - 2))
+        pool = [_glyph_paint(rnd, n, npal, ["solid", "solid", "linear"]) for _ in range(rnd.choice([12, 36, 60]))]
+        bases = sorted(rnd.sample(range(1, n), nb))
+        for b in bases:
+            k = rnd.randint(2, 5)
+            if rnd.random() < 0.5:
+                st = rnd.randrange(len(pool) - k)
+                layers = pool[st:st + k]
+            else:
+                layers = [rnd.choice(pool) for _ in range(k)]
+            out[b] = {"Format": 1, "Layers": [dict(p) for p in layers]}
+        return out, clips
     bases = sorted(rnd.sample(range(1, n), min(nb, n - 1)))
     done = []
     depth = {"deep": 5, "solid": 1}.get(shape, 3)
